@@ -11,7 +11,7 @@ from pyoma2.functions import ssi
 from pyoma2.setup import SingleSetup
 
 from .. import modal
-from ..core import J, Sub, mac, raised, rng_of, sut
+from ..core import relayout, J, Sub, mac, raised, rng_of, sut
 
 PROPERTY = "C01"
 RULE = (
@@ -174,7 +174,9 @@ def setup_case(draw, method):
             if c not in refs:
                 s["phi"][k][c] = [0.0, 0.0]
     unc = method == "cov_mm" and draw(st.integers(0, 2)) == 0
-    return {"sys": s, "refs": None if allref else refs, "br": br, "brmin": brmin, "N": N + (200 if unc else 0), "amps": amps, "method": method, "unc": unc}
+    return {"sys": s, "refs": None if allref else refs, "br": br, "brmin": brmin, "N": N + (200 if unc else 0), "amps": amps, "method": method, "unc": unc,
+            "layout": draw(st.sampled_from(["C", "C", "F", "colslice", "rowstep", "neg"])), "conj": draw(st.booleans()), "reuse": draw(st.integers(0, 3)) == 0,
+            "ordextra": draw(st.sampled_from([0, 0, 0, 1, 2, 4]))}  # the user asks for more orders than 2m
 
 
 def _kappa_data(Y, refs, br, m):
@@ -219,12 +221,18 @@ def judge_setup(case):
         j.skip("kappa>1e6")
         return j
     tol = CTOL * kappa * (10 if method == "dat" else 1)
-    ordmax = 2 * m
+    n2 = 2 * m  # the order at which the tables are judged
+    ordmax = min(n2 + int(case.get("ordextra", 0)), br * len(refs))
+    if ordmax > n2:
+        j.tag("ordmax>2m")
+    Y = relayout(Y, case.get("layout", "C"))  # the same samples as a Fortran-ordered array, a slice of a wider table, ...
     Y0 = Y.copy()
     ss = SingleSetup(Y, fs=S.fs)
     cls = SSIcov if method == "cov_mm" else SSIdat
     unc = bool(case.get("unc"))
-    kw = dict(name="alg", br=br, ordmax=ordmax, ordmin=0, step=1, hc=dict(NEUTRAL_HC), sc=dict(NEUTRAL_SC), calc_unc=unc, nb=4)
+    hc = dict(NEUTRAL_HC, conj=bool(case.get("conj")))  # the exact poles come in conjugate pairs: requiring the conjugate rejects none of them
+    kw = dict(name="alg", br=br, ordmax=ordmax, ordmin=0, step=1, hc=hc, sc=dict(NEUTRAL_SC), calc_unc=unc, nb=4)
+    j.tag("layout=" + case.get("layout", "C"), "conj" if case.get("conj") else "noconj")
     if unc:
         j.tag("calc_unc")
     if method == "cov_mm":
@@ -234,6 +242,14 @@ def judge_setup(case):
     alg = sut(lambda: cls(**kw))
     if not j.check(not raised(alg), "ctor-raises", lambda: f"{alg!r}"):
         return j
+    if case.get("reuse") and not unc:
+        # the same algorithm object ran before, in another setup, on a record of the same shape from another system
+        s2 = dict(case["sys"], fr=[0.8 * f + 0.004 for f in case["sys"]["fr"]])
+        other = SingleSetup(modal.Sys(s2).free_decay(amps[::-1], case["N"]), fs=S.fs)
+        j.tag("reused-object")
+        if raised(sut(other.add_algorithms, alg)) or raised(sut(other.run_by_name, "alg")):
+            j.skip("first-use-of-reused-object-raised")
+            return j
     r = sut(ss.add_algorithms, alg)
     r2 = sut(ss.run_by_name, "alg")
     if unc and raised(r2) and r2.type == "LinAlgError":
@@ -241,17 +257,20 @@ def judge_setup(case):
         # Hankel matrices; uncertainties are C17's subject, the identification itself is judged without them
         j.skip("uncertainty-propagation-singular-on-noise-free-data")
         return j
+    if raised(r2) and r2.type == "LinAlgError" and ordmax > n2:
+        j.skip("singular-above-the-true-order")  # exact data have rank 2m: orders above it may be exactly singular
+        return j
     if not j.check(not raised(r) and not raised(r2), "run-raises", lambda: f"{r!r} {r2!r}"):
         return j
     res = alg.result
     Fn, Xi, Phi, Lam = res.Fn_poles, res.Xi_poles, res.Phi_poles, res.Lambds
     if not j.check(Fn.shape == (ordmax, ordmax + 1), "table-shape", lambda: f"{Fn.shape}"):
         return j
-    _judge_column(j, S, Fn[:, ordmax], Xi[:, ordmax], Phi[:, ordmax, :], Lam[:, ordmax], tol, "table")
+    _judge_column(j, S, Fn[:, n2], Xi[:, n2], Phi[:, n2, :], Lam[:, n2], tol, "table")
     j.check(np.array_equal(Y, Y0), "data-mutated", "setup data modified by the run")
     # extraction at order 2m
     rtol = 1e-3
-    r3 = sut(ss.mpe, "alg", sel_freq=[float(f) for f in S.fn], order=ordmax, rtol=rtol)
+    r3 = sut(ss.mpe, "alg", sel_freq=[float(f) for f in S.fn], order=n2, rtol=rtol)
     if j.check(not raised(r3), "mpe-raises", lambda: f"{r3!r}"):
         fn, xi, phi = np.asarray(res.Fn), np.asarray(res.Xi), np.asarray(res.Phi)
         if j.check(fn.shape == (m,) and xi.shape == (m,) and phi.shape == (l, m), "mpe-shape", lambda: f"Fn{fn.shape} Xi{xi.shape} Phi{phi.shape} for m={m}, l={l}"):
@@ -260,7 +279,7 @@ def judge_setup(case):
                 j.check(abs(xi[k] - S.xi[k]) <= tol, "mpe-xi", lambda: f"mode {k}: {xi[k]!r} vs {S.xi[k]!r}")
                 em = 1 - max(mac(phi[:, k], S.Phi[:, k]), mac(phi[:, k], np.conj(S.Phi[:, k])))
                 j.check(em <= max(tol, 1e-12), "mpe-mac", lambda: f"mode {k}: 1-MAC={em:.3e}")
-            j.check(res.order_out == ordmax or np.all(np.asarray(res.order_out) == ordmax), "mpe-order", lambda: f"order_out={res.order_out!r}")
+            j.check(res.order_out == n2 or np.all(np.asarray(res.order_out) == n2), "mpe-order", lambda: f"order_out={res.order_out!r}")
     return j
 
 
